@@ -155,9 +155,22 @@ def corpus_audit(pid, root, check, verif_dir):
     import json
     from concurrent.futures import ProcessPoolExecutor
     jobs = []
+    # a refactoring that touches none of the files this check analysed cannot change its verdict: only the others are re-applied
+    seen_files = {f.replace(os.sep, '/') for f in check.analysed.get('files', ())}
+    skipped = 0
     for sd in sorted(glob.glob(os.path.join(verif_dir, 'refactors', '*'))):
-        if os.path.exists(os.path.join(sd, 'patch.diff')):
-            jobs.append(('refactor', os.path.basename(sd), os.path.join(sd, 'patch.diff')))
+        pth = os.path.join(sd, 'patch.diff')
+        if os.path.exists(pth):
+            try:
+                touched = {l.split(' b/', 1)[1].strip() for l in open(pth, encoding='utf-8', errors='replace') if l.startswith('diff --git ') and ' b/' in l}
+            except (IOError, IndexError):
+                touched = set()
+            if seen_files and touched and not (touched & seen_files):
+                skipped += 1
+                continue
+            jobs.append(('refactor', os.path.basename(sd), pth))
+    if skipped:
+        check.audit.append('corpus: %d stored refactorings touch none of the %d files this check analysed and were not re-applied' % (skipped, len(seen_files)))
     for sd in sorted(glob.glob(os.path.join(verif_dir, 'seeded', '*'))):
         try:
             meta = json.load(open(os.path.join(sd, 'meta.json')))
